@@ -92,8 +92,8 @@ _BOOL_COMBINATORS = {
     ("Option", "is_some"): {"Some": 1, "None": 0}, ("Option", "is_none"): {"Some": 0, "None": 1},
     ("Result", "is_ok"): {"Ok": 1, "Err": 0}, ("Result", "is_err"): {"Ok": 0, "Err": 1},
 }
-_VIDX = {"Ok": 0, "Err": 1, "None": 0, "Some": 1, "Continue": 0, "Break": 1}
-_THREAD_ADTS = ("std::result::Result", "std::option::Option", "std::ops::ControlFlow", "core::result::Result",
+_VIDX = {"Ok": 0, "Err": 1, "None": 0, "Some": 1, "Continue": 0, "Break": 1, "Ready": 0, "Pending": 1}
+_THREAD_ADTS = ("std::task::Poll", "core::task::Poll", "std::result::Result", "std::option::Option", "std::ops::ControlFlow", "core::result::Result",
                 "core::option::Option", "core::ops::ControlFlow")
 
 
@@ -134,11 +134,13 @@ def _written(stmt):
     return pl["l"] if isinstance(pl, dict) and "l" in pl else None
 
 
-def _thread_from(blocks, start, known, dvals0=None, limit=16):
+def _thread_from(blocks, start, known, dvals0=None, limit=24, payload0=None):
     """Follow the straight-line continuation from block `start` with `known` = {local: variant}.  Returns a list of
     new blocks (clones) whose last one ends in a goto to the decided switch target, or None."""
     clones = []
+    decided = 0
     dvals = dict(dvals0 or {})     # local -> int (a discriminant or bool known on this path)
+    payload = dict(payload0 or {}) # local -> variant of its (single) payload field 0, e.g. Ready(Ok(..)) -> "Ok"
     cur = start
     seen = set()
     known = dict(known)
@@ -146,7 +148,7 @@ def _thread_from(blocks, start, known, dvals0=None, limit=16):
         seen.add(cur)
         blk = blocks[cur]
         if blk.get("cleanup"):
-            return None
+            break
         nb = {"stmts": copy.deepcopy(blk["stmts"]), "term": copy.deepcopy(blk["term"])}
         for st in nb["stmts"]:
             if st.get("s") != "assign":
@@ -157,28 +159,42 @@ def _thread_from(blocks, start, known, dvals0=None, limit=16):
             dst = _plain(st["pl"])
             rv = st["rv"]
             w = _written(st)
-            val = dv = None
+            val = dv = pv = None
             if dst is not None:
                 if rv.get("r") == "use":
                     src = _op_local(rv["op"])
                     if src is not None:
-                        val, dv = known.get(src), dvals.get(src)
+                        val, dv, pv = known.get(src), dvals.get(src), payload.get(src)
+                    else:
+                        # `x = (p as V).0` with the payload's own variant known
+                        op = rv["op"]
+                        pl_ = (op.get("m") or op.get("c")) if isinstance(op, dict) else None
+                        if isinstance(pl_, dict) and "l" in pl_ and len(pl_.get("p", [])) == 2 and pl_["p"][0][0] == "dc" \
+                                and pl_["p"][1][0] == "f" and str(pl_["p"][1][1]) == "0" \
+                                and known.get(pl_["l"]) == pl_["p"][0][1] and pl_["l"] in payload:
+                            val = payload[pl_["l"]]
                 elif rv.get("r") == "discr":
                     src = _plain(rv.get("pl"))
                     if src is not None and src in known:
                         dv = _VIDX.get(known[src])
                 else:
                     val = _variant_of_agg(rv)
+                    if val is not None and len(rv.get("ops", [])) == 1:
+                        inner = _op_local(rv["ops"][0])
+                        if inner is not None and inner in known:
+                            pv = known[inner]
                 if rv.get("r") == "use" and isinstance(rv["op"], dict) and "k" in rv["op"] \
                         and isinstance(rv["op"]["k"].get("v"), int) and rv["op"]["k"].get("ty") == "bool":
                     dv = rv["op"]["k"]["v"]
             if w is not None:
-                known.pop(w, None); dvals.pop(w, None)
+                known.pop(w, None); dvals.pop(w, None); payload.pop(w, None)
             if dst is not None:
                 if val is not None:
                     known[dst] = val
                 if dv is not None:
                     dvals[dst] = dv
+                if pv is not None:
+                    payload[dst] = pv
         t = nb["term"]
         clones.append(nb)
         if t["t"] == "goto":
@@ -212,7 +228,7 @@ def _thread_from(blocks, start, known, dvals0=None, limit=16):
             if dst is not None and dv is not None:
                 dvals[dst] = dv
             if not known and not dvals:
-                return None
+                break
             cur = t["target"]
             continue
         if t["t"] == "switch":
@@ -224,10 +240,19 @@ def _thread_from(blocks, start, known, dvals0=None, limit=16):
                     if val == v:
                         tgt = b
                 nb["term"] = {"t": "goto", "target": tgt, "sp": t.get("sp"), "threaded": True}
-                return clones
-            return None
+                decided += 1
+                cur = tgt
+                continue
+            break
+        break
+    # the copies up to here are exact copies of straight-line code with decided switches folded; the last copy keeps its
+    # own terminator (pointing at original blocks).  Worth keeping only if something was decided.
+    if not decided:
         return None
-    return None
+    # drop trailing copies after the last decided switch (they would only duplicate code without deciding anything)
+    while clones and not clones[-1]["term"].get("threaded"):
+        clones.pop()
+    return clones or None
 
 
 def _thread_returns(blocks, first, last, ret_local):
@@ -588,13 +613,151 @@ def variants(facts, body, depths=(0, 1, 2), select=None):
     return out
 
 
+# ---------------------------------------------------------------------------------------------------------------
+# Folding a newly extracted *async* helper back into the async body that awaits it.
+#
+# `helper(args).await` is, in MIR: `fut = helper(args)` (the helper's outer body only builds the coroutine value from
+# its arguments), then a loop that calls the coroutine body `helper::{closure#0}(pin(&mut fut), cx)` — `Future::poll`
+# resolved — and yields while it returns Pending.  Replacing that call by the coroutine body itself (captured
+# arguments spelt as the values handed to `helper`, completion = `Poll::Ready(result)`, the helper's own suspension
+# points kept as suspension points) describes the same computation; the Pending arm of the awaiting loop becomes
+# dead and is pruned.
+
+def _find_creator(facts, body, sym, poll_arg, async_fn):
+    from .sym import walk, strip_deep
+    t = strip_deep(sym.operand(poll_arg))
+    for x in walk(t):
+        if x[0] == "call" and x[1] == async_fn:
+            bb = (x[3] or {}).get("bb")
+            if bb is not None:
+                return bb
+    return None
+
+
+def inline_polls(facts, body, async_helpers, max_blocks=400):
+    """Inline every `poll` of a coroutine created by one of `async_helpers` (names of async fns).  -> (Body, n)"""
+    from .sym import Sym
+    rec = copy.deepcopy(body.rec)
+    blocks = rec["blocks"]
+    locals_ = rec["locals"]
+    promoted = rec.setdefault("promoted", [])
+    work = Body(copy.deepcopy(body.rec), facts)
+    sym = Sym(work)
+    n = 0
+    for bi in range(len(blocks)):
+        t = blocks[bi]["term"]
+        if t["t"] != "call" or blocks[bi].get("cleanup") or t.get("target") is None:
+            continue
+        callee = _callee_of(facts, t)
+        if callee is None or not callee.endswith("::{closure#0}"):
+            continue
+        afn = callee[:-len("::{closure#0}")]
+        cb = facts.bodies.get(callee)
+        if afn not in async_helpers or cb is None or not cb.is_coroutine or len(cb.blocks) > max_blocks or len(t["args"]) != 2:
+            continue
+        if callee == body.name or body.name.startswith(afn + "::"):
+            continue
+        creator = _find_creator(facts, work, sym, t["args"][0], afn)
+        if creator is None:
+            continue
+        ct = blocks[creator]["term"]
+        if ct["t"] != "call" or _callee_of(facts, ct) != afn:
+            continue
+        upv = cb.rec.get("upvars", [])
+        idx_of = {}
+        for name, pl in upv:
+            p0 = pl.get("p", [])
+            if pl.get("l") == 1 and p0 and p0[0][0] == "f":
+                try:
+                    idx_of[int(p0[0][1])] = (name, p0[0][3] if len(p0[0]) > 3 else "?")
+                except (TypeError, ValueError):
+                    pass
+        if len(ct["args"]) < len(idx_of):
+            continue
+        crec = copy.deepcopy(cb.rec)
+        loff, boff, poff = len(locals_), len(blocks), len(promoted)
+        cblocks = crec["blocks"]
+        _renumber(cblocks, loff, boff, poff)
+        for l in crec["locals"]:
+            locals_.append(dict(l))
+        promoted.extend(crec.get("promoted", []))
+        # captured arguments: one fresh local each, set where the coroutine value is created
+        ulocal = {}
+        for i, (name, ty) in sorted(idx_of.items()):
+            locals_.append({"ty": ty, "name": name})
+            ulocal[i] = len(locals_) - 1
+            a = copy.deepcopy(ct["args"][i])
+            if isinstance(a, dict) and "m" in a:
+                a = {"c": a["m"]}
+            blocks[creator]["stmts"].append({"s": "assign", "pl": {"l": ulocal[i], "p": []}, "rv": {"r": "use", "op": a}, "sp": ct.get("sp")})
+        env = loff + 1
+
+        def fix(node):
+            if isinstance(node, dict):
+                if "l" in node and "p" in node and isinstance(node["p"], list) and node.get("l") == env and node["p"] \
+                        and node["p"][0][0] == "f":
+                    try:
+                        i = int(node["p"][0][1])
+                    except (TypeError, ValueError):
+                        i = None
+                    if i in ulocal:
+                        node["l"] = ulocal[i]
+                        node["p"] = node["p"][1:]
+                        return
+                for v in node.values():
+                    fix(v)
+            elif isinstance(node, list):
+                for x in node:
+                    fix(x)
+        fix(cblocks)
+        ret_local = loff
+        dest, target = t["dest"], t["target"]
+        rty = locals_[dest["l"]]["ty"] if not dest["p"] else "?"
+        for cblk in cblocks:
+            ctm = cblk["term"]
+            if ctm["t"] == "return":
+                cblk["stmts"].append({"s": "assign", "pl": copy.deepcopy(dest),
+                                      "rv": {"r": "agg", "ak": "adt", "adt": "std::task::Poll", "variant": "Ready", "vidx": 0,
+                                             "fields": ["0"], "ga": [], "ops": [{"m": {"l": ret_local, "p": []}}]},
+                                      "sp": ctm.get("sp")})
+                cblk["term"] = {"t": "goto", "target": target, "sp": ctm.get("sp"), "ret_of_inlined": True}
+        pre = [{"s": "assign", "pl": {"l": loff + 2, "p": []}, "rv": {"r": "use", "op": copy.deepcopy(t["args"][1])}, "sp": t.get("sp")}]
+        blocks[bi]["stmts"] = blocks[bi]["stmts"] + pre
+        blocks[bi]["term"] = {"t": "goto", "target": boff, "sp": t.get("sp"), "inlined": callee}
+        blocks.extend(cblocks)
+        # exits with a known Ok/Err completion: threaded through `Ready(..)`, the awaiting loop's switch and the `?`
+        _thread_returns(blocks, boff, boff + len(cblocks), ret_local)
+        # completion is always Ready: decide the awaiting loop's switch on the copies that follow each completion
+        for ci in range(boff, boff + len(cblocks)):
+            cb_ = blocks[ci]
+            if cb_["term"].get("ret_of_inlined"):
+                d = _plain(dest)
+                if d is not None:
+                    clones = _thread_from(blocks, target, {d: "Ready"})
+                    if clones is not None:
+                        base = len(blocks)
+                        for i, c in enumerate(clones[:-1]):
+                            c["term"]["target"] = base + i + 1
+                        blocks.extend(clones)
+                        cb_["term"] = dict(cb_["term"], target=base)
+        n += 1
+    if n:
+        _prune_unreachable(blocks)
+        try:
+            split_webs(rec)
+        except Exception:
+            pass
+    return Body(rec, facts), n
+
+
 class InlinedFacts:
     """A view of a Facts object in which every function body has its calls to *private* crate functions inlined
     (two levels).  Functions that are private and whose every call site was inlined have no existence of their own in
     this view (`absorbed`): what they contain is judged inside their callers."""
 
-    def __init__(self, facts, depth=5, max_blocks=160, only=None):
+    def __init__(self, facts, depth=5, max_blocks=160, only=None, async_helpers=None):
         self._into_coroutines = only is not None     # folding back *new* helpers: also inside async bodies
+        self._async = set(async_helpers or ())
         self._f = facts
         self._depth = depth
         self._max = max_blocks
@@ -642,7 +805,21 @@ class InlinedFacts:
             if (b.is_coroutine and not self._into_coroutines) or name.split("::{closure")[0] in self.absorbed:
                 self._cache[name] = b
             else:
-                self._cache[name] = inlined(self._f, b, self._depth, self._select, self._max)
+                nb = inlined(self._f, b, self._depth, self._select, self._max)
+                if self._async and nb.is_coroutine:
+                    for _ in range(3):
+                        nb2, k = inline_polls(self._f, nb, self._async)
+                        if not k:
+                            break
+                        nb = nb2
+                        for _d in range(self._depth):         # (not `inlined()`: its cache is keyed by the body's name)
+                            if not self._priv or len(nb.blocks) > 2500:
+                                break
+                            nb3, k3 = inline_once(self._f, nb, self._select, self._max)
+                            if not k3:
+                                break
+                            nb = nb3
+                self._cache[name] = nb
         return self._cache[name]
 
     def find_bodies(self, pattern):
@@ -719,12 +896,26 @@ def new_private_helpers(facts):
     return out
 
 
+def new_async_helpers(facts):
+    """Private async functions that did not exist in the tree the rules were written against."""
+    import json, os
+    p = os.path.join(os.path.dirname(os.path.dirname(os.path.abspath(__file__))), "tables", "head_functions.json")
+    try:
+        head = set(json.load(open(p))["functions"])
+    except FileNotFoundError:
+        return set()
+    return {n for n, r in facts.fns.items()
+            if n not in head and r.get("has_body") and r.get("async") and not r.get("exported") and not r.get("impl_trait")
+            and (n + "::{closure#0}") in facts.bodies}
+
+
 def normalised(facts):
     """The facts with helpers extracted since the rules were written folded back into their callers (the facts
     themselves when there are none)."""
     new = new_private_helpers(facts)
-    if not new:
+    anew = new_async_helpers(facts)
+    if not new and not anew:
         return facts
-    v = InlinedFacts(facts, depth=6, max_blocks=400, only=new)
-    v.new_helpers = sorted(new)
+    v = InlinedFacts(facts, depth=6, max_blocks=400, only=new, async_helpers=anew)
+    v.new_helpers = sorted(new | anew)
     return v
